@@ -319,7 +319,7 @@ def is_literal(token: tokens.Literal):
 
 
 def is_capitalized_literal(token: tokens.Literal):
-    if is_literal(token):
+    if is_literal(token) and token.value:
         return 'A' <= token.value[0] <= 'Z'
 
     return False
